@@ -86,15 +86,28 @@ const (
 
 // saveMapGob saves a map to a file using gob encoding.
 func saveMapGob[K comparable, V any](filePath string, data map[K]V) error {
-	file, err := os.Create(filePath)
+	// write a temporary file and rename it over the target: a crash never leaves a partly written
+	// cache file behind (an empty or truncated gob file makes LoadFromDisk, hence start-up, fail)
+	tmpPath := filePath + ".tmp"
+	file, err := os.Create(tmpPath)
 	if err != nil {
-		return fmt.Errorf("failed to create file %s: %w", filePath, err)
+		return fmt.Errorf("failed to create file %s: %w", tmpPath, err)
 	}
-	defer file.Close()
 
 	encoder := gob.NewEncoder(file)
 	if err := encoder.Encode(data); err != nil {
-		return fmt.Errorf("failed to encode to file %s: %w", filePath, err)
+		_ = file.Close()
+		return fmt.Errorf("failed to encode to file %s: %w", tmpPath, err)
+	}
+	if err := file.Sync(); err != nil {
+		_ = file.Close()
+		return fmt.Errorf("failed to sync file %s: %w", tmpPath, err)
+	}
+	if err := file.Close(); err != nil {
+		return fmt.Errorf("failed to close file %s: %w", tmpPath, err)
+	}
+	if err := os.Rename(tmpPath, filePath); err != nil {
+		return fmt.Errorf("failed to rename %s to %s: %w", tmpPath, filePath, err)
 	}
 	return nil
 }
